@@ -314,7 +314,8 @@ class Model:
             iterations[0] += 1
 
             # Check if all assigned
-            unassigned = [n for n in domains if len(domains[n]) > 1 and not n.startswith("_")]
+            # unnamed variables (auto-named `_v...`) are searched like any other; only the report leaves them out
+            unassigned = [n for n in domains if len(domains[n]) > 1]
             if not unassigned:
                 # Found solution
                 sol = {n: next(iter(d)) for n, d in domains.items() if not n.startswith("_")}
